@@ -826,7 +826,11 @@ def equal(a: Expr, b: Expr, tol: float = TOL) -> bool:
         return False
     # non-Expr fields must match exactly
     for x, y in zip(a[1:], b[1:]):
-        if not isinstance(x, (Expr, tuple)) and x != y:
+        if isinstance(x, Expr):
+            continue
+        if isinstance(x, tuple) and _contains_expr(x):
+            continue
+        if x != y:
             return False
     if t in ("mul", "choice", "and", "or") or (t == "fn" and a[1] in ("max", "min")):
         rest = list(cb)
@@ -855,6 +859,15 @@ def equal(a: Expr, b: Expr, tol: float = TOL) -> bool:
     if t == "opq" and (a[1] != b[1]):
         return False
     return all(equal(x, y, tol) for x, y in zip(ca, cb))
+
+
+def _contains_expr(t) -> bool:
+    for x in t:
+        if isinstance(x, Expr):
+            return True
+        if isinstance(x, tuple) and _contains_expr(x):
+            return True
+    return False
 
 
 def canon_bound(e: Expr) -> Expr:
